@@ -85,6 +85,8 @@ def _case(draw):
         lo = draw(st.sampled_from([0, 300, 600]))
         fam["rules"] = [{"name": "r1", "conditionSets": [[{"name": "Weight", "minimum": lo, "maximum": 1000}]], "subs": [[a, b]]}]
     cand = sorted({m["loc"]["Weight"] for m in masters} | {0, 1000, 200, 700, 850, 123.4, 500})
+    # ... and locations a hair's breadth away from a master (0.0004 of the axis): they are interpolated like any other location
+    cand += [w for m in masters for w in (m["loc"]["Weight"] + 0.4, m["loc"]["Weight"] - 0.4) if 0 <= w <= 1000]
     hist = []
     for _ in range(draw(st.integers(1, 4))):
         loc = {"Weight": draw(st.sampled_from(cand))}
@@ -361,6 +363,8 @@ def run_case(case, ctx):
             ctx.label("master-location")
         else:
             ctx.label("non-master-location")
+            if any(abs(loc["Weight"] - m["Weight"]) < 1 and all(loc.get(k_) == v_ for k_, v_ in m.items() if k_ != "Weight") for m in mlocs):
+                ctx.label("location-next-to-a-master")
     nfull = len(fam["masters"])
     if nfull > 2 ** len(fam["axes"]):
         ctx.label("intermediate-master")
